@@ -9,6 +9,7 @@
 
 #include "printf_impl.h"
 #include <ctype.h>
+#include <float.h>
 #include <igris/dprint.h>
 #include <igris/math/defs.h>
 #include <igris/util/types_extension.h>
@@ -63,8 +64,13 @@
 /**
  * Options for print_f
  */
+#define PRINT_F_FRAC_MAX                                                       \
+    62 /* fraction digits taken from the value; a longer precision is filled  \
+          up with zeros */
 #define PRINT_F_BUFF_SZ                                                        \
-    65 /* size of buffer for long double -- FIXME this may not be enough */
+    (DOUBLE_MAX_10_EXP + 1 + 1 + PRINT_F_FRAC_MAX +                            \
+     1) /* integer digits of the largest finite value, point, fraction        \
+           digits, terminator (the exponent form needs less) */
 //#define PRINT_F_PREC_SHORTENED 4 /* shortened precision for real numbers */
 #define PRINT_F_PREC_DEFAULT 6 /* default precision for real numbers */
 
@@ -202,6 +208,7 @@ static int print_i(void (*printchar_handler)(void *d, int c),
 #if 1 // OPTION_GET(NUMBER, support_floating)
 #ifdef LONG_DOUBLE
 #define DOUBLE long double
+#define DOUBLE_MAX_10_EXP LDBL_MAX_10_EXP
 #define MODF modfl
 #define LOG10 log10l
 #define FMOD fmodl
@@ -209,6 +216,7 @@ static int print_i(void (*printchar_handler)(void *d, int c),
 #define FABS fabsl
 #else
 #define DOUBLE double
+#define DOUBLE_MAX_10_EXP DBL_MAX_10_EXP
 #define MODF modf
 #define LOG10 log10
 #define FMOD fmod
@@ -297,7 +305,9 @@ static int print_f(void (*printchar_handler)(void *d, int c),
     }
     fp = with_exp ? fp : MODF(r, &ip);
     precision -= (int)(is_shortened ? ceill(LOG10(ip)) + (ip != 0.0L) : 0);
-    for (; (sign_count < precision) && (FMOD(fp, 1.0L) != 0.0L); ++sign_count)
+    for (; (sign_count < precision) && (sign_count < PRINT_F_FRAC_MAX) &&
+           (FMOD(fp, 1.0L) != 0.0L);
+         ++sign_count)
         fp *= base;
     fp = roundl(fp);
 
